@@ -65,7 +65,10 @@ type builder struct {
 
 // leaf draws a scalar schema.
 func (b *builder) leaf() map[string]any {
-	switch rapid.IntRange(0, 4).Draw(b.t, "leaf") {
+	switch rapid.IntRange(0, 5).Draw(b.t, "leaf") {
+	case 5:
+		// bounds equal to zero: a copy of the schema that loses zero-valued keywords loses these
+		return map[string]any{"type": "integer", "minimum": gen.Number(-rapid.IntRange(0, 3).Draw(b.t, "negmin")), "maximum": gen.Number(0)}
 	case 0:
 		return map[string]any{"type": "integer", "minimum": gen.Number(rapid.IntRange(0, 3).Draw(b.t, "min")), "maximum": gen.Number(rapid.IntRange(5, 9).Draw(b.t, "max"))}
 	case 1:
@@ -350,6 +353,24 @@ func genCase(t *rapid.T) Case {
 				op := pair.d["paths"].(map[string]any)[o2.Path].(map[string]any)[o2.Method].(map[string]any)
 				op["responses"].(map[string]any)["200"] = map[string]any{"description": "decorated too", "schema": pair.tr}
 			}
+		}
+		// site D: the schema of a body parameter, on an operation that has no payload parameter yet (the library
+		// reaches it through its parameter helper, which resolves and copies the parameter first)
+		for _, bo := range info.Ops {
+			if bo.HasBody || bo.HasForm {
+				continue
+			}
+			vd4, ve4 := &visitedReplica{map[string]bool{}}, &visitedReplica{map[string]bool{}}
+			tree4 := b.tree(depth, "schema of body parameter decoBody of "+bo.ID, "decoBody", "decoBody", vd4, ve4, false, false, leafDef, 0)
+			for _, pair := range []struct {
+				d  map[string]any
+				tr any
+			}{{doc, tree4}, {base, stripDecos(gen.Clone(tree4))}} {
+				op := pair.d["paths"].(map[string]any)[bo.Path].(map[string]any)[bo.Method].(map[string]any)
+				ps, _ := op["parameters"].([]any)
+				op["parameters"] = append(ps, map[string]any{"name": "decoBody", "in": "body", "schema": pair.tr})
+			}
+			break
 		}
 		// site C: simple parameter with default, array parameter with items default, header with default
 		for _, d := range []map[string]any{doc, base} {
